@@ -202,6 +202,11 @@ func (e *Engine) havocGuarded(st *State, ref *Term, g guardInfo) {
 		v := e.freshVal(st, ft, fmt.Sprintf("guarded_%v", f))
 		if m, ok := v.(VMap); ok {
 			st.assume(Gt(m.Ref, Zero)) // lock invariant: the guarded map is never nil
+			if !st.published {
+				// nothing this call allocated has been made reachable for anybody else yet: the map found
+				// under the lock existed before the call
+				st.assume(Lt(m.Ref, st.alloc0))
+			}
 			if st.guardedRefs == nil {
 				st.guardedRefs = map[string]string{}
 			}
